@@ -227,7 +227,7 @@ def run(ctx, quick):
 
     # seeded random scenarios start right away (they do not depend on the model run)
     nshard = 3 if quick else 8
-    per, rlen = (6, 90) if quick else (30, 140)
+    per, rlen = (6, 90) if quick else (20, 140)
     rjobs = [["-out", ctx.path("keys_rand_%d.ndjson" % i), "-random", str(per), "-len", str(rlen), "-first", str(i * per)] for i in range(nshard)]
     pool = concurrent.futures.ThreadPoolExecutor(max_workers=1)
     rfut = pool.submit(_shards, ctx, drv, rjobs, 3000)
@@ -244,7 +244,7 @@ def run(ctx, quick):
     for fam, r in zip(MODEL_FAMILIES, fres):
         if not r.ok:
             raise vlib.CheckError("design-level KeysPool model (%s family) violates %s (model-only, not a verdict):\n%s" % (fam, r.invariant, (r.error or "")[:1500]))
-        s1, k1 = _pick(r.exports, rnd, (2 if quick else 10))
+        s1, k1 = _pick(r.exports, rnd, (2 if quick else 6))
         for e in s1:
             e["fam"] = fam
         scen += s1
@@ -261,7 +261,7 @@ def run(ctx, quick):
     if rs.ok or rs.invariant != "NoSplit":
         raise vlib.CheckError("the model does not show the split caused by an equivocating author any more (expected NoSplit to fail): %s" % (rs.error or "")[:600])
     # 1c. random walks of a larger instance (4 identities, every message class, lagging nodes, restarts, both rounds)
-    nwalk = 10 if quick else 120
+    nwalk = 10 if quick else 90
     rw = vlib.tlc(ctx, "MC_KeysPool.tla", "MC_KeysPool_sim.cfg", workers=1, timeout=1800,
                   extra=["-simulate", "num=%d" % (max(4, nwalk // 3)), "-depth", "82", "-seed", str(ctx.seed)], simulate=True)
     if rw.error:
